@@ -677,6 +677,19 @@ def op_typed(ctx, rule="OP-TYPED"):
         ctx.check(built == sorted(["Literal", wrap]) and okd and not cmpc, rule, "%s builds Literal(eval(..)) or %s(..) only" % (short(folder), wrap), "builds %s" % built,
                   "%s builds %s, branches on %s and compares with %s: constructors must only fold literals or wrap their operands (any other simplification makes built and lazily "
                   "evaluated expressions differ)" % (short(folder), built, sws, cmpc), h.loc(), fn=folder, key="%s|%s" % (rule, short(folder)))
+    # the leaf constructors wrap their argument unchanged, whatever its value: Expr::string("") is the empty STRING (not null: '' = NULL is 0, '' + 'a' is 'a'),
+    # Expr::integer(0) the integer 0, Expr::col(n) the column n
+    E = r"internal::expr::Expr::Expr\{internal::expr::Ast::%s\}\}"
+    ARG = r"(?:[^{}()]*\(p1\)|p1)"
+    for cons, pat in (("string", E % (r"Literal\{internal::value::Value::Str\{%s\}" % ARG)), ("integer", E % r"Literal\{internal::value::Value::Int\{p1\}"),
+                      ("col", E % (r"Column\{%s" % ARG)), ("null", E % r"Literal\{internal::value::Value::Null\{\}")):
+        h = prog.fn("msi::internal::expr::Expr::" + cons)
+        Sh = Sym(prog, h)
+        v = Sh.local(0)
+        branches = [Sh.val(bl["term"]["discr"]) for bl in h.blocks if not bl["cleanup"] and bl["term"]["t"] == "switch"]
+        ctx.check(re.fullmatch(pat, v) is not None and not branches, rule, "Expr::%s wraps its argument unchanged" % cons, v[:120],
+                  "Expr::%s builds %s%s: a leaf constructor must yield exactly its argument as a literal / column reference for every argument value (an empty string is a "
+                  "string, not null)" % (cons, v[:160], " and branches on %s" % branches if branches else ""), h.loc(), fn=h.name, key="%s|leaf|%s" % (rule, cons))
     # the logical constructors build their node and nothing else: normalisation to 0/1 happens in Ast::eval, so any construction-time shortcut
     # (returning an operand for a constant left side) changes the value of the expression
     for cons, node in (("msi::internal::expr::Expr::and", "And"), ("msi::internal::expr::Expr::or", "Or")):
